@@ -251,8 +251,12 @@ def replay_record(case, extra=None):
     return rec
 
 
+CLASSIFY = None
+
+
 def judge(ck, flex, scratch, cases, results, stats, classify=None):
     """Turn the problems of evaluated cases into verdicts."""
+    classify = classify or CLASSIFY
     byid = {c['id']: c for c in cases}
     seen_keys = set()
     for res in results:
@@ -397,7 +401,8 @@ def summarize(cases, results, stats, nob, ngood, details, props_file, rule, extr
         s = cases[0]
         cov["samples"] = [{"rules": s['text'].split("%%")[1].strip().splitlines()[:6], "flex_opts": s['flex_opts'],
                            "backend": s.get('backend', 'nr'),
-                           "input_hex": bytes(s['inputs'][0]).hex()[:80] if s.get('inputs') else "",
+                           "input_hex": (bytes(s['inputs'][0]).hex()[:80] if s.get('inputs') and isinstance(s['inputs'][0], list)
+                                         else str(s.get('inputs', s.get('sources', ''))[:1])[:160]),
                            "lockstep": results[0].get('lockstep', [])[:2]}]
     else:
         cov["samples"] = ["(no case)"]
